@@ -38,14 +38,23 @@ def family(cfg):
 
 
 def temp_prefix(cfg):
+    """the prefix the library itself hands out for temporary labels (InsertionContext.temporary_label): the labels of
+    the generated texts are built with it, so that a prefix the assembler does not treat as temporary shows up as
+    colliding copies / missing suffixes"""
+    import gtirb
+
+    from gtirb_rewriting.abi import ABI
+
     c = CONFIGS[cfg]
-    if c["ff"] == "PE" and c["isa"] == "IA32":
-        return "L"
-    if c["ff"] == "PE":
+
+    class _M:           # what ABI.get looks at
+        isa = getattr(gtirb.Module.ISA, c["isa"])
+        file_format = getattr(gtirb.Module.FileFormat, c["ff"])
+
+    try:
+        return ABI.get(_M).temporary_label_prefix()
+    except Exception:  # noqa: BLE001   (no ABI for this pair, e.g. IA32 ELF)
         return ".L"
-    if c["isa"] == "MIPS32":
-        return "$L"
-    return ".L"
 
 
 # ---------------------------------------------------------------------------
